@@ -262,7 +262,7 @@ def cases(draw):
         "early": draw(st.booleans()),
         "constrained": draw(st.booleans()),
         "scheduler": draw(st.sampled_from(["uncontrolled", "always_max", "greedy"])),
-        "period": draw(st.sampled_from([1, 5, 15])),
+        "period": draw(st.sampled_from([1, 5, 15, 7])),
         "choices": draw(st.lists(st.integers(0, 11), min_size=1, max_size=12)),
         "event_order": list(draw(st.permutations(range(k)))),
         "seed": draw(st.integers(0, 10 ** 6)),
